@@ -46,12 +46,17 @@ var c15Sources = map[string]string{
 	"grok.p":   "add_pattern(\"wd\", \"[a-z]+\")\nok = grok(_, \"%{wd:w} %{INT:n:int}\")\nadd_key(ok)\nuse(\"ok.p\")\n",
 	"retag.p":  "drop_key(t1)\nset_tag(f1)\nadd_key(t1, \"now field\")\nrename(g, f1)\ncast(f2, \"str\")\nadd_key(t2, drop_key(nokey))\nrename(t9, t2)\nset_tag(f3, obj.attr)\nrename(t8, f3)\nadd_key(f4, nil)\nrename(t7, f4)\nrename(t6, nokey)\nsql_cover(sq)\n",
 	"spin.p":   "n = 0\nfor ;; { n = n + 1\nadd_key(n) }\n",
+	// a decoded document changed in place, and an error raised two use() levels away from a builtin whose
+	// literal argument cannot be compiled (the error object must be made anew on every run)
+	"jsonmut.p": "j = load_json(fj)\nj[\"a\"][0] += 1\nj[\"level\"] = \"masked\"\nadd_key(ja, j[\"a\"][0])\nadd_key(jl, j[\"level\"])\n",
+	"badre.p":   "add_key(before, 1)\nreplace(message, \"(unclosed\", \"x\")\nadd_key(after, 1)\n",
+	"usebad.p":  "add_key(k, len(message))\nuse(\"badre.p\")\n",
 	"lit.p":    "g = [[0, 0], [1]]\ng[0][0] += 1\nm = {\"k\": [0], \"j\": {\"n\": 0}}\nm[\"k\"][0] += 1\nm[\"j\"][\"n\"] = m[\"j\"][\"n\"] + 1\nadd_key(g0, g[0][0])\nadd_key(mk, m[\"k\"][0])\nadd_key(mj, m[\"j\"][\"n\"])\nif \"a\" in [\"a\", \"b\"] { add_key(found, true) }\nsql_cover(sq)\nset_tag(newtag, \"set on a point that came without tags\")\n",
 }
 
 func c15Points() []PointSpec {
 	return []PointSpec{
-		{Meas: "m1", Tags: map[string]string{"t1": "tv"}, Fields: map[string]any{"message": "hello 42", "f1": int64(7), "f2": 2.5, "sq": `select * from t where dir = 'c:\temp\'`}, Time: 1600000000000000000},
+		{Meas: "m1", Tags: map[string]string{"t1": "tv"}, Fields: map[string]any{"message": "hello 42", "f1": int64(7), "f2": 2.5, "sq": `select * from t where dir = 'c:\temp\'`, "fj": `{"a": [1], "level": "info"}`}, Time: 1600000000000000000},
 		{Meas: "m2", Tags: nil, Fields: map[string]any{"message": "x", "sq": "SELECT 'a\\' , b -- '\nFROM t"}, Time: 1}, // no tags at all (as every text input)
 		{Meas: "m3", Tags: map[string]string{"t1": "a", "t2": "b", "t3": "c"}, Fields: map[string]any{"message": nil, "f1": "s", "f2": true, "f3": int64(1), "f4": int64(2), "sq": `select "prod\users" from t where p = 'x\'`}, Time: 2},
 	}
@@ -149,6 +154,8 @@ func c15Ops() []c15Op {
 		runOp("lit.p", 1, 0),
 		runOp("loop.p", 0, 1),
 		runOp("spin.p", 1, 7),
+		runOp("jsonmut.p", 0, 0),
+		runOp("usebad.p", 0, 0),
 	}
 }
 
